@@ -40,7 +40,7 @@ BACKINGS = ['list', 'intarr', 'floatarr', 'f32arr', 'i32arr']
 MENU = ['int', 'str'] + [f'mv:{l}:{b}' for l in LAYOUTS for b in BACKINGS if not (l == 'empty' and b != 'list')] + ['mv:arr1', 'mv:arr2', 'call:mv', 'call:list', 'mv:point:list', 'call:partial', 'call:object']
 SUBMENU = ['int', 'mv:sparse:list', 'mv:permuted:floatarr', 'mv:densebin:list', 'mv:dense:intarr', 'mv:arr1', 'call:mv', 'call:list', 'mv:point:list']
 WRAPS = ['plain', 'list', 'tuple', 'rootcall']
-DELTAS = [0.5, -1.25, 2.0]
+DELTAS = [0.5, -1.25, 2.0, 2.0 ** -18]      # the last one: a fine adjustment (far below any "is it close" tolerance, exact in float32)
 
 
 def shards(tier, seed):
@@ -384,7 +384,8 @@ def drag_bfs(res, algname, leaves, wrap, depth, case0):
                 k = snapshot(mvs)
                 if k not in seen:
                     seen[k] = path
-                    nxt.append(path)
+                    if ev[1] < 3:          # the fine adjustment is explored as a last step only (its successors differ by 2**-18)
+                        nxt.append(path)
         frontier = nxt
     res.states += len(seen)
     res.count('scenes_with_draggable_points')
